@@ -122,8 +122,38 @@ def avoid(case, exp):
 
 def expr_text(op, x, y):
     if y is None:
-        return ("-%s" if op == "neg" else "!%s") % x
+        return {"neg": "-%s", "!": "!%s", "negneg": "-(-%s)", "notnot": "!(!%s)"}[op] % x
     return "%s %s %s" % (x, op, y)
+
+
+def literalable(o):
+    """The operand is spelled by ONE literal token (non-negative int / bigint / byte, finite non-negative float)."""
+    k, v = o
+    if k in ("int", "bigint", "byte"):
+        return v >= 0
+    if k == "float":
+        return v == v and not math.isinf(v) and (v > 0 or N.fbits(v) == 0)
+    return False
+
+
+def literal_route_extra():
+    """Cases aimed at rewrites of `variable op literal`: small and power-of-two literals next to negative and
+    extreme variables, for every integer kind."""
+    out = []
+    for k, vals, lits in (("int", [-9, -7, -1, 0, 1, 7, 9, -2147483647, -2147483648, 2147483647],
+                           [0, 1, 2, 3, 4, 8, 1024, 65536, 1073741824]),
+                          ("bigint", [-9, -7, -1, 0, 7, -(2 ** 127), 2 ** 127 - 1, -(2 ** 64) - 1],
+                           [0, 1, 2, 4, 8, 1024, 2 ** 32, 2 ** 64, 2 ** 126])):
+        for v in vals:
+            for l in lits:
+                for op in ("/", "%", "*", "+", "-", "<<", ">>", "&", "|", "xor", "<", "==", ">="):
+                    out.append((op, (k, v), (k, l)))
+                    out.append((op, (k, l), (k, v)))
+    for v in (0, 1, 7, 9, 254, 255):
+        for l in (0, 1, 2, 4, 8, 128):
+            for op in ("/", "%", "*", "-", "<<", ">>"):
+                out.append((op, ("byte", v), ("byte", l)))
+    return out
 
 
 def render(cases, route):
@@ -174,6 +204,16 @@ def render(cases, route):
             key = (op, a[0], b[0] if b is not None else None)
             args = name[vkey(a)] if b is None else "%s, %s" % (name[vkey(a)], name[vkey(b)])
             lines.append("%s(%s)" % (fns[key], args))
+    elif route in ("rlit", "llit"):
+        # one operand is written as a LITERAL next to a variable operand (what peephole rewrites look for)
+        lines.append('print "@@CASES"')
+        for op, a, b in cases:
+            la, lb = name[vkey(a)], name[vkey(b)] if b is not None else None
+            if route == "rlit" and b is not None and literalable(b):
+                lb = N.source(*b)
+            if route == "llit" and literalable(a):
+                la = N.source(*a)
+            lines.append("print " + expr_text(op, la, lb))
     else:
         lines.append('print "@@CASES"')
         for op, a, b in cases:
@@ -439,8 +479,11 @@ def matrix_cases(quick):
             if k == "byte" and a[1] not in (0, 1, 255):
                 continue
             out.append((("neg", a, None), True))
+            if k != "byte":
+                out.append((("negneg", a, None), True))
     for v in (True, False):
         out.append((("!", ("bool", v), None), True))
+        out.append((("notnot", ("bool", v), None), True))
     return out
 
 
@@ -558,6 +601,12 @@ def run(ctx):
     other = [c for c in other if expected(c)[0] != "undefined"]
     jobs += make_jobs(other, "param")
     jobs += make_jobs([c for c in other if c[1][0] != "bool"], "list")
+    # literal routes: `variable op literal` and `literal op variable`
+    lit_cases = [c for c in literal_route_extra() if expected(c)[0] != "undefined"]
+    lit_cases += [c for c in (sliced[::5] if ctx.quick else chosen[::2]) if c[2] is not None and expected(c)[0] != "undefined"
+                  and c[1][0] != "bool"]
+    jobs += make_jobs([c for c in lit_cases if literalable(c[2])], "rlit")
+    jobs += make_jobs([c for c in lit_cases if literalable(c[1])], "llit")
     rng = ctx.rng("operands")
     rnd, avoided = random_cases(rng, ctx.n(10000, 150000))
     jobs += make_jobs(rnd, "var")
